@@ -81,7 +81,7 @@ func authAllowed(w *world.World, p presentation, publicOK bool, assertionEnabled
 	}
 	switch p.creds.Mode {
 	case "basic", "post":
-		if c.Auth != oidc.AuthMethodBasic && c.Auth != oidc.AuthMethodPost {
+		if c.Auth == oidc.AuthMethodNone || c.Auth == oidc.AuthMethodPrivateKeyJWT {
 			return false, false, "wrong-kind-of-credential"
 		}
 		if c.Secret == "" || p.creds.Secret != c.Secret {
